@@ -29,7 +29,7 @@ POINTS = {
     "p2": dict(s=2, m="m0", tags={"b": ""}, fields={}),
     "p3": dict(s=3, m="_default", tags={"a": "x", "b": "x"}, fields={"p": -1}),
     "pe": dict(s=0, m="m1", tags={"a": None}, fields={"p": 1, "q": 0}),  # earlier than most: out of order
-    "pn": dict(s=4, m="m0", tags={"a": "l1\nl2", "b": "q,\"r"}, fields={"p": 3}),  # line break, delimiter and quote inside values
+    "pn": dict(s=4, m="m0", tags={"a": "l1\nl2\r\nl3\rl4", "b": "q,\"r"}, fields={"p": 3}),  # LF, CRLF and CR line breaks, delimiter and quote inside values
 }
 
 
